@@ -186,8 +186,16 @@ def section_keys(doc):
 HEADER_KEYS = ("Section Version", "Sub-section type", "Created by")
 
 
-def body(section):
-    return {k: v for k, v in section.items() if k not in HEADER_KEYS}
+def header_keys(doc):
+    """the per-section header fields: the three known names plus whatever every section of the document carries
+    (so that an additional structural field added to all sections is not mistaken for payload content)"""
+    secs = [v for v in doc.values() if isinstance(v, dict)]
+    common_keys = set.intersection(*[set(v) for v in secs]) if len(secs) >= 3 else set()
+    return set(HEADER_KEYS) | common_keys
+
+
+def body(section, hdr=HEADER_KEYS):
+    return {k: v for k, v in section.items() if k not in hdr}
 
 
 def payload_recoverable(section, payload, repo_parse):
